@@ -269,7 +269,8 @@ func checkStream(c Case) error {
 		}()
 	}
 	var got []fasta.Fasta
-	deadline := vk.After(60*time.Second + time.Duration(c.StallMs)*time.Millisecond)
+	deadline, releaseDeadline := vk.AfterStop(60*time.Second + time.Duration(c.StallMs)*time.Millisecond)
+	defer releaseDeadline()
 	for i := 0; ; i++ {
 		if i == 1 && c.StallMs > 0 {
 			time.Sleep(time.Duration(c.StallMs) * time.Millisecond)
@@ -302,12 +303,14 @@ closed:
 		return err
 	}
 	if parserDone != nil {
+		limit, release := vk.AfterStop(30 * time.Second)
+		defer release()
 		select {
 		case err := <-parserDone:
 			if err != nil {
 				return err
 			}
-		case <-vk.After(30 * time.Second):
+		case <-limit:
 			return vk.Errf("ParseConcurrent closed its channel but did not return within 30 s")
 		}
 	}
